@@ -24,6 +24,7 @@ import (
 
 	fxtypes "github.com/functionx/fx-core/v8/types"
 	crosschaintypes "github.com/functionx/fx-core/v8/x/crosschain/types"
+	fxgovtypes "github.com/functionx/fx-core/v8/x/gov/types"
 
 	"fxverif/lib"
 )
@@ -128,6 +129,10 @@ func main() {
 		// first, then proposal 1 closes and its refund loop reaches the governance account's own deposit
 		{{{Kind: "gov_proposal", A: 2}, {Kind: "gov_proposal_dep", A: 0, B: 0}}, {{Kind: "gov_vote", A: 0, B: 1}, {Kind: "gov_vote", A: 1, B: 1}}, {}, {}, {}, {}, {}},
 		{{{Kind: "gov_proposal", A: 10}}, {}, {{Kind: "gov_cancel", B: 0}}, {}, {}, {}, {}},
+		// malformed custom parameters (empty quorum / ratio) offered under both live keys, then proposals with and without
+		// messages are voted and end: whatever the validation admitted is read by the tally in the end blocker
+		{{{Kind: "gov_custom_params", A: 6, B: 3}, {Kind: "gov_custom_params", A: 1, B: 3}, {Kind: "gov_custom_params", A: 3, B: 4}, {Kind: "gov_custom_params", A: 4, B: 2}},
+			{{Kind: "gov_proposal", A: 2}, {Kind: "gov_proposal", A: 1}}, {{Kind: "gov_vote", A: 0, B: 0}, {Kind: "gov_vote", A: 1, B: 1}}, {}, {}, {}, {}, {}},
 		// a passed proposal whose handler panics (both validators vote yes): the panic must stay inside x/gov
 		// (the second proposal only parks a 20 000 FX deposit in the gov account: deposits of the executing proposal itself
 		// are refunded before its messages run, so the fee can only be charged to somebody else's deposit)
@@ -400,6 +405,25 @@ func runHistory(r *lib.Rand, hseed int64, module string, rep *lib.Report, items 
 				proposals++
 				target := uint64(1 + int(o.B)%(proposals-1))
 				o.Res = errClass(submitDepositProposal(c, user, target, o.A%2 == 0))
+			case "gov_custom_params":
+				// governance sets per-message custom parameters under the keys the keeper's look-up derives ("/google.protobuf.Any"
+				// for proposals with messages, "" for those without) with boundary and MALFORMED field values: what the message's
+				// validation lets through is later read by the tally inside the end blocker
+				quorum := []string{"0", "1", "0.000000000000000001", "", " ", "abc", "-0.1", "1.5", "0.334"}[o.B%9]
+				ratio := []string{"0", "1", "", "0.5", "x", "0.000000000000000001"}[(o.B/2+uint64(o.A))%6]
+				var vp *time.Duration
+				if o.A%5 != 0 {
+					d := []time.Duration{time.Second, 5 * time.Second, 0, -time.Second, 20 * time.Second}[o.A%5]
+					vp = &d
+				}
+				url := []string{"/google.protobuf.Any", "", sdk.MsgTypeURL(&banktypes.MsgSend{})}[o.A%3]
+				e := c.Try(func(ctx sdk.Context) error {
+					m := &fxgovtypes.MsgUpdateCustomParams{Authority: lib.GovAuthority(), MsgUrl: url,
+						CustomParams: fxgovtypes.CustomParams{DepositRatio: ratio, VotingPeriod: vp, Quorum: quorum}}
+					_, err := c.App.MsgServiceRouter().Handler(m)(ctx, m)
+					return err
+				})
+				o.Res = errClass(e)
 			case "gov_proposal_panic":
 				// a proposal whose message handler PANICS when executed: crisis MsgVerifyInvariant sent by the governance
 				// account for the gov module-account invariant — the handler first charges the constant fee (13 333 FX) to
@@ -465,7 +489,7 @@ func runHistory(r *lib.Rand, hseed int64, module string, rep *lib.Report, items 
 }
 
 func genOp(r *lib.Rand, nOracles int) op {
-	kinds := []string{"bridge_call", "bridge_call", "inject_batch", "inject_batch", "confirm_oset", "confirm_oset", "confirm_batch", "confirm_bcall", "confirm_bcall", "add_delegate", "add_delegate", "add_delegate", "confirm_oset", "confirm_batch", "gov_proposal", "top_up", "top_up", "gov_vote", "gov_vote", "set_window", "gov_cancel", "gov_proposal_dep", "observe_oset", "observe_oset", "set_pct", "gov_proposal_panic"}
+	kinds := []string{"bridge_call", "bridge_call", "inject_batch", "inject_batch", "confirm_oset", "confirm_oset", "confirm_batch", "confirm_bcall", "confirm_bcall", "add_delegate", "add_delegate", "add_delegate", "confirm_oset", "confirm_batch", "gov_proposal", "top_up", "top_up", "gov_vote", "gov_vote", "set_window", "gov_cancel", "gov_proposal_dep", "observe_oset", "observe_oset", "set_pct", "gov_proposal_panic", "gov_custom_params", "gov_custom_params"}
 	return op{Kind: kinds[r.Intn(len(kinds))], A: r.Intn(nOracles + 6), B: uint64(r.Intn(8))}
 }
 
